@@ -1,8 +1,13 @@
 """C21 — inputs generated for the bundled formalizations pass independent validity checks.
 
-PROOF part (CSV only, coq/Formal/Csv.v, CsvFacts.v, Props/C21.v): the shipped CSV grammar and
+PROOF part 1 (CSV, coq/Formal/Csv.v, CsvFacts.v, Props/C21.v): the shipped CSV grammar and
 column-count constraint imply that an independent CSV reader finds the same number of columns in
-every record.  The tie to /repo, evaluated on every run:
+every record.
+PROOF part 2 (XML tag balance, coq/Formal/Xml.v, XmlFacts.v, XmlValid.v): both shipped XML grammars +
+xml_wellformedness_constraint imply (and are implied by) acceptance by an independent tag-stack
+reader; its tie to /repo (transcription diff, evaluate verdicts, reference reader, xml.etree) is in
+harness/c21_xml.py and runs after the XML search so that the solver outputs are fed through it too.
+The CSV tie to /repo, evaluated on every run:
   T1  transcription diff: Csv.CSV = canonical(CSV_GRAMMAR), Csv.colno_src = csv_colno_property,
       and the parameters of the parsed CSV_COLNO_PROPERTY (element type, needle, lower bound);
   T2  on fuzzed / parsed / solver-produced trees t:  wf_treeb CSV t, closedb t, yield t = str(t),
@@ -11,7 +16,8 @@ every record.  The tie to /repo, evaluated on every run:
   T3  every ISLaSolver.solve() output for the shipped CSV formalization satisfies the premises of
       the theorem (wf, closed, colno_satb) and the conclusion (equal column counts by both readers).
 SEARCH part (not proof): ISLaSolver outputs for the shipped XML, reST and simple-TAR
-formalizations validated by independent checkers (xml.etree + own tag/namespace stack; docutils; a
+formalizations (for XML: namespace binding and attribute uniqueness are search only; tag balance is
+proved) validated by independent checkers (xml.etree + own tag/namespace stack; docutils; a
 byte-level TAR header reader).  Outputs are generated from scratch and from scaffolds (initial_tree):
 XML trees with prefixed elements and open attribute slots at several depths, TAR archives with >= 2
 entries (two of them textually identical with a stale checksum), each TAR scaffold solved twice in one
@@ -38,6 +44,7 @@ import z3
 from returns.maybe import Some
 
 import isla_formalizations.csv as csvf
+import c21_xml
 
 OBL_TRANS = "transcription Formal/Csv.v (CSV, colno_src, colno_*) <-> isla_formalizations/csv.py"
 OBL_EVAL = "correspondence Csv.colno_satb <-> evaluator.evaluate(CSV_COLNO_PROPERTY, tree, CSV_GRAMMAR)"
@@ -345,7 +352,14 @@ def run(run):
         "ISLaSolver(CSV_GRAMMAR, CSV_COLNO_PROPERTY).solve() under several seeds / cost vectors / "
         "instantiation bounds; each case = (tree, str(tree), evaluate verdict, csv.reader rows) compared "
         "inside Coq with wf_treeb/closedb/yield/colno_satb/csv_rows.  non-trivial = tree has >= 2 "
-        "<csv-record> nodes (distinct by text).  XML / reST / simple TAR (search only): solver outputs, from "
+        "<csv-record> nodes (distinct by text).  XML tag balance (proof + tie): GrammarFuzzer trees of "
+        "XML_GRAMMAR and XML_GRAMMAR_WITH_NAMESPACE_PREFIXES, EarleyParser trees of generated nested texts "
+        "with attributes (values containing / = escaped quotes), one third with renamed close tags, and the "
+        "ISLaSolver outputs of the XML search; each case = (tree, str(tree), evaluate verdict of "
+        "XML_WELLFORMEDNESS_CONSTRAINT, verdict of a Python reference tag-stack reader cross-checked with "
+        "xml.etree) compared inside Coq with wf_treeb/closedb/yield/xml_wf_satb/xml_balanced; plus random "
+        "malformed strings (reader only).  non-trivial = text has an open/close element.  "
+        "XML namespaces+attributes / reST / simple TAR (search only): solver outputs, from "
         "scratch and from scaffolds passed as initial_tree (XML: nested prefixed elements with open attribute "
         "slots at several depths; TAR: archives with >= 2 entries incl. two textually identical entries with a "
         "stale checksum, every scaffold solved twice in one process; reST additionally with "
@@ -475,6 +489,8 @@ def run(run):
     budget = 90 if thorough else 14
     nsol = 60 if thorough else 12
 
+    xml_solver_trees = []
+
     def search(name, grammar, formula, checker, cfgs):
         found = 0
         for i, cfg in enumerate(cfgs):
@@ -496,6 +512,8 @@ def run(run):
             for t in sols:
                 s = str(t)
                 found += 1
+                if name == "xml":
+                    xml_solver_trees.append(t)
                 run.count((name, s), len(s) >= 8)
                 why = checker(s, t)
                 if why:
@@ -526,6 +544,15 @@ def run(run):
                [dict(scaffold=xml_scaffold(xml_g, txt), n=6 if thorough else 3,
                      budget=20 if thorough else (6 if k == 0 else 8), max_number_free_instantiations=1)
                 for k, txt in enumerate(xml_texts)])   # the first scaffold has no solution on a correct tree
+
+        # ---- XML tag balance: transcription + correspondence for the proved part (after the XML search,
+        # so that the solver outputs above go through wf_treeb / xml_wf_satb / xml_balanced as well) ----
+        try:
+            c21_xml.correspond(run, rng, thorough, seed_global, xml_solver_trees, broken, failing)
+        except Exception:  # noqa
+            import traceback
+            broken.append({"obligation": "XML correspondence (harness/c21_xml.py) crashed",
+                           "detail": traceback.format_exc()[-1500:]})
 
         rest_f = (rest.LENGTH_UNDERLINE & rest.DEF_LINK_TARGETS & rest.NO_LINK_TARGET_REDEF
                   & rest.LIST_NUMBERING_CONSECUTIVE)
@@ -594,7 +621,14 @@ def run(run):
         "the independent validity notion is the reader Csv.csv_rows; tied to Python's csv module on every run",
         "that ISLaSolver outputs satisfy the constraint is C01's claim; here it is re-checked per output "
         "(wf_treeb, closedb, colno_satb)",
-        "XML / reST / simple TAR: NOT proved; failing-input search with xml.etree, docutils, byte-level TAR reader",
+        "helpers.canonical(XML_GRAMMAR / XML_GRAMMAR_WITH_NAMESPACE_PREFIXES) is the grammar the solver works with",
+        "meaning of xml_wellformedness_constraint taken as documented (every <xml-tree> node matching "
+        "<{<id> opid}[ <xml-attribute>]><inner-xml-tree></{<id> clid}> has equal opid / clid texts); tied to "
+        "evaluator.evaluate on every run",
+        "the independent notion of tag balance is the reader Xml.xml_balanced; tied on every run to a Python "
+        "reference reader, which is cross-checked with xml.etree (expat) on every text of the grammar",
+        "XML namespace / attribute-uniqueness constraints, reST, simple TAR: NOT proved; failing-input search with "
+        "xml.etree, docutils, byte-level TAR reader",
     ]
 
 
@@ -608,7 +642,7 @@ def replay_witness(w):
     if name == "csv":
         return not csv_equal_columns(s)[0]
     if name == "xml":
-        return check_xml(s) is not None
+        return check_xml(s) is not None or not c21_xml.py_xml_balanced(s)
     if name == "simple_tar":
         return check_tar(s) is not None
     return False
@@ -636,7 +670,7 @@ def replay(path):
         print("constraint verdict on the current tree:", verdict)
         return 1 if verdict else 0
     if name == "xml":
-        why = check_xml(s)
+        why = check_xml(s) or (None if c21_xml.py_xml_balanced(s) else "tag balance (reference reader)")
     elif name == "simple_tar":
         why = check_tar(s)
     else:
